@@ -291,6 +291,34 @@ def derives_from_call(fn, op, pred, max_nodes=400):
     return False
 
 
+def returns_from_call(fb, g, pred, depth=3, _seen=None):
+    """Does the value a workspace function returns (on some success exit) data-depend on the result of a call matching
+    pred, directly or through further workspace callees? Lets a rule follow a value through an extracted helper."""
+    seen = _seen if _seen is not None else set()
+    if g.key in seen or depth < 0:
+        return False
+    seen.add(g.key)
+    bodies = [g] + [fb.fns[k] for k in fb.children.get(g.key, []) if k in fb.fns and fb.fns[k].coro]
+    for f in bodies:
+        ret = ["c", [0, []]]
+        if derives_from_call_deep(fb, f, ret, pred, depth, seen):
+            return True
+    return False
+
+
+def derives_from_call_deep(fb, fn, op, pred, depth=3, _seen=None):
+    """derives_from_call, following the return values of workspace callees (bounded depth)."""
+    if derives_from_call(fn, op, pred):
+        return True
+    if depth <= 0:
+        return False
+
+    def deep(k):
+        g = fb.fns.get(re.sub(r"::\{closure#\d+\}$", "", k))
+        return g is not None and returns_from_call(fb, g, pred, depth - 1, _seen)
+    return derives_from_call(fn, op, deep)
+
+
 def find_calls(fn, target):
     pred = mk_pred(target)
     return [(b, c) for b, c in fn.calls() if c.get("f") is not None and pred(c["f"])]
